@@ -196,7 +196,7 @@ def parse_why(out):
     reporter may print in between"""
     out = "\n".join(l for l in out.splitlines() if not l.startswith("Progress("))
     why = {}
-    for m in re.finditer(r'<<"WHY",.*?>>', out, re.S):
+    for m in re.finditer(r'<<\s*"WHY",.*?>>', out, re.S):
         t = vlib.parse_tla_value(" ".join(m.group(0).split()))
         if t and len(t) == 5:
             why[int(t[1])] = (t[2], t[3], sorted(t[4]))
